@@ -182,7 +182,11 @@ def run (ws : List String) : String :=
         let bytes := (writeImageHeader img).toBytes ++ outs.flatMap (·.bytes)
         let frames := outs.map fun o =>
           s!"frame {o.numGroups} {o.paths.length} " ++ " ".intercalate o.paths ++
-          s!" {o.expected.length} " ++ " ".intercalate (o.expected.map showChan)
+          s!" {o.expected.length} " ++ " ".intercalate (o.expected.map showChan) ++
+          (match o.modelDecoded with
+           | none => " model none"
+           | some m => if m == o.expected then " model same" else
+               s!" model {m.length} " ++ " ".intercalate (m.map showChan))
         s!"ok {hexOfBytes bytes} {outs.length} " ++ " ".intercalate frames
 
 def main : IO Unit := runLoop () fun _ ws => ((), run ws)
